@@ -50,6 +50,7 @@ type Val struct {
 	Bind                []*Val
 	Ghost               map[string]*Term
 	Lit                 *string // bytes-mode literal text, when known
+	ByValue             bool    // reference to an embedded (by-value) struct: '==' compares values
 	Bound               *Term   // allocation counter at the last modification of the heap keys this value was loaded from
 }
 
@@ -121,14 +122,25 @@ func isOpaqueStruct(t types.Type) bool {
 	if !ok {
 		return false
 	}
-	if _, isStruct := n.Underlying().(*types.Struct); !isStruct {
+	st, isStruct := n.Underlying().(*types.Struct)
+	if !isStruct {
 		return false
 	}
 	p := n.Obj().Pkg()
 	if p == nil {
 		return false
 	}
-	return !strings.HasPrefix(p.Path(), "github.com/martian-lang/martian")
+	if !strings.HasPrefix(p.Path(), "github.com/martian-lang/martian") {
+		return true
+	}
+	// a repository type defined as a foreign struct (type WallClockTime time.Time):
+	// its fields belong to another package
+	for i := 0; i < st.NumFields(); i++ {
+		if fp := st.Field(i).Pkg(); fp != nil && !strings.HasPrefix(fp.Path(), "github.com/martian-lang/martian") {
+			return true
+		}
+	}
+	return false
 }
 
 type Mode struct {
